@@ -218,8 +218,49 @@ Definition jitems_of_trace (tr : list jstep_obs) : option (list xitem) :=
   | t :: _ => Some (XState (js_pre t) :: flat_map (fun t => [XOp (js_ops t); XState (js_post t)]) tr)
   end.
 
+(* malformed plans are compared with the model only - unless a joint action that WAS executed contains a member whose
+   simultaneous effects are inconsistent in the state it was applied in (decided on the printed operators and the
+   pre-state of every observed step): then nothing is defined and the answer depends on a set order *)
+Definition ops_members (d : sdomain) (ops : list string) : option (list member) :=
+  match spec_joint_line (String.concat "," ops) with
+  | Some calls => all_some (map (spec_member d) (filter (fun x => negb (is_nop_call x)) calls))
+  | None => None
+  end.
+
+Definition trace_consistent (c : jcase) (d : sdomain) : bool :=
+  match j_trace c with
+  | Returned tr => forallb (fun o => match ops_members d (js_ops o) with
+                                     | Some ms => seq_consistent c d (ms_st (js_pre o)) ms
+                                     | None => true
+                                     end) tr
+  | Raised => true
+  end.
+
+(* the same along the MODEL's trajectory *)
+Definition mtrace_consistent (c : jcase) (d : sdomain) : bool :=
+  match model_jtrace c with
+  | Ok ts => forallb (fun t => match ops_members d (jt_ops t) with
+                               | Some ms => seq_consistent c d (ms_st (jt_prev t)) ms
+                               | None => true
+                               end) ts
+  | Err _ => true
+  end.
+
+(* a plan some EXECUTED joint action of which has a member with inconsistent simultaneous effects is outside every
+   quantifier, wherever in the plan it stands (the spec's own run stops classifying at the first line it does not
+   judge, e.g. an interfering first line, and would not see a later one) *)
+Definition plan_defined (c : jcase) : bool :=
+  match j_sdomain c with
+  | Some d => match model_jtrace c with
+              | Ok _ => mtrace_consistent c d        (* a function of the case's INPUT alone *)
+              | Err _ => trace_consistent c d        (* the model raised: the steps the implementation reports *)
+              end
+  | None => true
+  end.
+
 Definition plan_verdict0 (c : jcase) : verdict * ascii :=
   let agree := model_plan_agrees c in
+  if negb (plan_defined c) then ({| v_agree := true; v_ok := true; v_known := false |}, "c"%char) else
   if negb (j_strict c) then ({| v_agree := agree; v_ok := true; v_known := false |}, "m"%char) else
   match j_sdomain c with
   | None => ({| v_agree := agree; v_ok := false; v_known := false |}, "x"%char)
